@@ -132,6 +132,11 @@ func (p *polling) onDataRequest(ctx *types.HttpContext) {
 
 	if isBinary && p.Protocol() == 4 {
 		p.OnError("invalid content", nil)
+		// the request is refused, not ignored: without a response its handler
+		// would wait for ever (the body is unread, so the HTTP server does not
+		// even notice the client going away)
+		ctx.SetStatusCode(http.StatusBadRequest)
+		ctx.Write(nil)
 		return
 	}
 
